@@ -21,7 +21,7 @@ HINT = "metadata.version-hint.text"
 # yield granularity: the protocol-significant operations (DESIGN.md C01 quantifier)
 # ---------------------------------------------------------------------------------------------------
 def protocol_yield_filter(op: str, path: str, phase: tuple) -> bool:
-    if op in ("LockTry", "LockRel", "Fence", "Sleep"):
+    if op in ("LockTry", "LockRel", "Fence", "Sleep", "Tick"):
         return True
     if path.endswith(HINT) and op in ("read_file", "read_file_with_etag", "write_file", "write_file_cas"):
         return True
@@ -288,6 +288,17 @@ def run_case(scratch: str, case: Dict[str, Any], chooser_factory: Callable[[S.Sc
             elif clock == "coarse" and nsteps[0] % 7 == 0:
                 sc.clock_ms += 1
         sc.step_hook = hook
+        ca = case.get("clock_actor")
+        if ca:
+            if store is not None:
+                store.real_clock_ages = True
+
+            def clock_body() -> Any:
+                for _ in range(ca.get("jumps", 1)):
+                    sc.yield_point("Tick", "")
+                    sc.clock_ms += ca.get("ms", 61000)
+                return "ticked"
+            sc.spawn("K", clock_body)
         chooser = chooser_factory(sc)
 
         def recording(enabled: List[str], s: S.Scheduler) -> Optional[str]:
@@ -324,7 +335,7 @@ class Nonconforming(Exception):
     pass
 
 
-def project(res: CaseResult, nactors: int, cas: bool = False) -> Tuple[List[Tuple[int, str]], Dict[str, int], List[str]]:
+def project(res: CaseResult, nactors: int, cas: bool = False, lease: bool = False) -> Tuple[List[Tuple[int, str]], Dict[str, int], List[str]]:
     """Returns (events as (actor index, Gallina evkind text)), metadata-file name -> vid, notes).
     Raises Nonconforming on a storage call the projection does not know."""
     vids: Dict[str, int] = {res.initial["pointer"]: 0}
@@ -333,8 +344,11 @@ def project(res: CaseResult, nactors: int, cas: bool = False) -> Tuple[List[Tupl
     pending_validate: Dict[str, int] = {}      # actor -> index into events of its open EValidate (verdict filled later)
     validated: Dict[str, bool] = {}
     n_known = 0
+    holder: Optional[str] = None
     for idx, e in enumerate(res.log):
         a = e["actor"]
+        if not a.startswith("A"):
+            continue
         ai = int(a[1:])
         op, path, phase, result = e["op"], e["path"], e["phase"], e["result"]
         pcs = path_class(path)
@@ -368,6 +382,10 @@ def project(res: CaseResult, nactors: int, cas: bool = False) -> Tuple[List[Tupl
             if not in_mm_commit:
                 raise Nonconforming(f"lock attempt outside MetadataManager.commit at log[{idx}]: {phase}")
             validated[a] = False
+            if result == "ok" and lease:
+                if holder is not None and holder != a:
+                    events.append((ai, "ESteal"))          # the lease had lapsed: the attempt took the lock over
+                holder = a
             events.append((ai, f"ELockTry {'true' if result == 'ok' else 'false'}"))
         elif op == "write_file" and pcs == "meta":
             if not in_mm_commit:
@@ -382,6 +400,8 @@ def project(res: CaseResult, nactors: int, cas: bool = False) -> Tuple[List[Tupl
             events.append((ai, f"EFlip {'true' if ok else 'false'}"))
         elif op == "LockRel":
             _close_validate(events, pending_validate, a, False)
+            if holder == a:
+                holder = None
             events.append((ai, "ERelease"))
         elif op in ("exists", "read_file", "open_file", "write_file", "delete_file", "DataW", "DataR", "Sleep",
                     "get_size", "get_modified_time", "list_files", "open_seekable"):
